@@ -279,6 +279,20 @@ ONE={
 "C16-B11":("sync iterator filter returns 'not expired' for admitted entries with an unapplied write","insert, sync, update, invalidate_all (or the deadline), iterate before maintenance"),
 "C17-A11":("1000-year limit for time_to_idle compared in whole seconds","time_to_idle between 1000 y + 1 ns and 1000 y + 999 999 999 ns"),
 "C17-B11":("unsync `Cache::new` switches the popularity sketch on at once","new(n); get before the cache is half full; fill; insert decided by popularity"),
+"C02-A12":("sync rejection path: `remove(key)` then put the newer entry back if it was not the op's entry","one thread in `handle_upsert` (rejection) while another inserts the key twice: once before the remove, once between remove and put-back"),
+"C02-B12":("sync `remove_expired_wo`: `remove(key)` and re-insert if the entry turns out not to be expired","ttl; expired unswept key; its writer inserts twice around the sweep's remove"),
+"C04-A12":("sync `handle_upsert` update arm applies the weight change only if the op's old and new weights differ","another thread's insert of the key between the currency check and `set_policy_weight` of a maintenance run"),
+"C04-B12":("sync stale-op guard uses `try_get().try_unwrap()` (as C04-A5)","sustained insert traffic on one map shard beside maintenance"),
+"C07-A12":("sync `remove_expired_ao`: `remove(key)` instead of `remove_if(expired)` (as C07-A2)","the sweep between node check and map removal while another thread re-inserts the key after invalidate_all"),
+"C07-B12":("sync update raises its timestamp to the entry's later last_modified (as C07-A11)","an insert that read the clock before invalidate_all lands after a competing insert of the key"),
+"C09-A12":("sync `evict_lru_entries`: skipped (dirty) nodes no longer count against the batch (as C09-B2)","over capacity, the only remaining LRU node made dirty by another thread between apply-writes and the eviction loop"),
+"C09-B12":("housekeeping hoisted out of the write retry loop (as C09-A3)","queue filled by others while the flag holder is past its drain"),
+"C10-A12":("sync `invalidate` queues no Remove op for a not yet admitted entry (as C10-B7)","invalidate between the currency check and `set_admitted(true)` of `handle_upsert`"),
+"C10-B12":("sync `handle_upsert`: the admitted-entry update path moved above the stale-op guard (as C03-A11)","two writers update one admitted key, ops queued in the opposite order of the map updates"),
+"C11-A12":("sync `invalidate` queues no Remove op for a not yet admitted entry (as C10-B7)","as C10-A12"),
+"C11-B12":("sync `schedule_write_op` gives up on a Remove op when the write queue is full","384 pending writes (one thread stuck in maintenance) at the moment an admitted entry is invalidated"),
+"C16-A12":("sync `remove_expired_wo`: `remove(key)` instead of `remove_if(expired)` (as C03-B)","ttl; the sweep between node check and map removal while another thread updates the key"),
+"C16-B12":("sync `remove_expired_ao` removes the map entry if it is not dirty instead of re-checking expiry","write ops of one key applied out of order (re-insert applied while the old entry's Remove op is still on its way) with tti or invalidate_all"),
 "C17-B4":("unsync `with_everything` drops zero durations","time_to_live / time_to_idle of exactly 0"),
 }
 rows=[]
